@@ -1,12 +1,26 @@
 ------------------------------ MODULE KV1Trace ------------------------------
 (* Validates records logged from the real srctools code against KV1Ops.        *)
-(* Each record is judged on its own with the same operators the model uses:    *)
 (*   k = "rt"   a tree serialised with several option sets, each text parsed    *)
 (*              back from a str, from a list of chunks and from a file object   *)
 (*   k = "doc"  a text (rendered from TLC's token symbols, or random) parsed    *)
-(*              with parse options; the real tokenizer's tokens for it          *)
-(*   k = "lex"  a text and the real tokenizer's tokens                          *)
+(*              from a str, from chunks and from a file object                  *)
 (* Mismatches are printed (one JSON line each), never fatal.                    *)
+(*                                                                              *)
+(* VERDICT clauses demand only what the property states:                        *)
+(*   rt.str / rt.chunks / rt.file   parsing the text gives the tree back: same  *)
+(*        shape, order, names (original casing), values - whatever the layout   *)
+(*   rt.filetext / rt.export   the same for the text serialise(file) wrote and  *)
+(*        for export()                                                          *)
+(*   ser.unchanged   serialising did not change the tree                        *)
+(*   ws.only   the texts of two option sets differ only in whitespace outside   *)
+(*        the quoted strings                                                    *)
+(*   parse.chunks / parse.file   a document parses alike from a str, from       *)
+(*        arbitrary chunks and from a file object (same tree / both refused)    *)
+(* DIAGNOSTIC clauses (prefix "diag.") compare with the exact model: the exact  *)
+(* text of Serialise (indentation, line layout, brace placement, escape         *)
+(* spelling), the parser model (line numbers, error kinds, flag and option      *)
+(* semantics) and the lexer model.  They are counted in the evidence and never  *)
+(* make a violation: the property fixes none of these details.                  *)
 EXTENDS KV1Ops, TLC, Json, IOUtils
 
 Recs == ndJsonDeserialize(IOEnv.TRACE_FILE)
@@ -28,53 +42,54 @@ NoLineRes(res) == [res EXCEPT !.line = 0, !.node = NoLine(@)]
 Same(logged, model) == model.err = "crash" \/ logged = model
 
 (* ---- k = "rt" --------------------------------------------------------------- *)
-\* the one known way the text may deviate: block names between the quotes as they are
-RawOnly(doc, o, text) == text # Serialise(doc, o) /\ text = SerialiseG(doc, o, FALSE)
-Tag(doc, o, text, c) == IF RawOnly(doc, o, text) THEN c \o ".blockname_raw" ELSE c
-
 RtOK(doc, p) == p.ok /\ p.root /\ NoLineSeq(p.node.k) = RoundTripKids(doc)
 RunChecks(r, j) ==
     LET run == r.runs[j]  doc == r.doc  o == run.o  text == run.text
         model == ParseText(text, [DefaultParse EXCEPT !.lex = LexOf(r)])
-        T(c) == Tag(doc, o, text, c)
         e == [run |-> j]
-    IN <<Check(text = Serialise(doc, o), T("ser.text"), e),
-         Check(run.ftext = text, "ser.file", e),
+    IN <<\* the property: the reader recovers the tree, from every form of delivery
+         Check(RtOK(doc, run.p_str), "rt.str", e),
+         Check(RtOK(doc, run.p_chunks), "rt.chunks", e),
+         Check(RtOK(doc, run.p_file), "rt.file", e),
+         Check(RtOK(doc, run.p_ftext), "rt.filetext", e),
+         \* the property: serialising leaves the tree alone
          Check(run.after = doc, "ser.unchanged", e),
-         Check(NoBlanks(text) = NoBlanks(r.runs[1].text), "ws.only", e),
-         \* the parser model explains what the real parser made of the real text ...
-         Check(Same(run.p_str, model), "parse.model.str", e),
-         Check(Same(run.p_chunks, model), "parse.model.chunks", e),
-         Check(Same(run.p_file, model), "parse.model.file", e),
-         Check(Same(run.p_tok, model), "parse.model.tokenizer", e),
-         \* ... and that must be the tree
-         Check(RtOK(doc, run.p_str), T("rt.str"), e),
-         Check(RtOK(doc, run.p_chunks), T("rt.chunks"), e),
-         Check(RtOK(doc, run.p_file), T("rt.file"), e),
-         Check(RtOK(doc, run.p_tok), T("rt.tokenizer"), e)>>
+         \* the property: options change whitespace only (outside the quoted strings)
+         Check(SqueezeWs(text) = SqueezeWs(r.runs[1].text), "ws.only", e),
+         \* diagnostics: the exact layout and the parser model
+         Check(text = Serialise(doc, o), "diag.ser.text", e),
+         Check(run.ftext = text, "diag.ser.file", e),
+         Check(RtOK(doc, run.p_tok), "diag.rt.tokenizer", e),
+         Check(Same(run.p_str, model), "diag.parse.model.str", e),
+         Check(Same(run.p_chunks, model), "diag.parse.model.chunks", e),
+         Check(Same(run.p_file, model), "diag.parse.model.file", e),
+         Check(Same(run.p_tok, model), "diag.parse.model.tokenizer", e)>>
 RtChecks(r) ==
     FoldLeft(LAMBDA acc, j : acc \o RunChecks(r, j), <<>>, [j \in 1..Len(r.runs) |-> j])
-    \o <<Check(r.export = Serialise(r.doc, DefaultSer), Tag(r.doc, DefaultSer, r.export, "export.text"), [run |-> 0])>>
+    \o <<Check(RtOK(r.doc, r.p_export), "rt.export", [run |-> 0]),
+         Check(r.export = Serialise(r.doc, DefaultSer), "diag.export.text", [run |-> 0])>>
 
-(* ---- k = "doc", "lex" -------------------------------------------------------- *)
+(* ---- k = "doc" ---------------------------------------------------------------- *)
+\* what the reader recovered, without line numbers; refusals are alike whatever their wording
+Alike(a, b) == a.ok = b.ok /\ (a.ok => (a.root = b.root /\ NoLine(a.node) = NoLine(b.node)))
 DocChecks(r) ==
     LET po == PoOf(r)
         toks == Lex(r.text, po.lex)
         res == Parse(toks, po).res
-    IN <<Check(r.toks = toks, "lex.tokens", toks),
-         Check(Same(r.res, res), "parse.text", res),
-         \* the same text in arbitrary chunks and as a file object
-         Check(Same(r.res_chunks, res), "parse.chunks", res),
-         Check(Same(r.res_file, res), "parse.file", res),
+    IN <<\* the property's three forms of delivery are interchangeable
+         Check(Alike(r.res_chunks, r.res), "parse.chunks", r.res),
+         Check(Alike(r.res_file, r.res), "parse.file", r.res),
+         \* diagnostics: lexer and parser model (tokens, line numbers, error kinds, flags, options)
+         Check(r.toks = toks, "diag.lex.tokens", toks),
+         Check(Same(r.res, res), "diag.parse.text", res),
+         Check(Same(r.res_chunks, res), "diag.parse.chunks", res),
+         Check(Same(r.res_file, res), "diag.parse.file", res),
          \* the rendering chosen by the harness is the document TLC explored
-         Check(~r.hassyms \/ res.err = "crash" \/ NoLineRes(r.res) = NoLineRes(ParseText(Render(r.syms), po)), "parse.doc",
+         Check(~r.hassyms \/ res.err = "crash" \/ NoLineRes(r.res) = NoLineRes(ParseText(Render(r.syms), po)), "diag.parse.doc",
                IF r.hassyms THEN NoLineRes(ParseText(Render(r.syms), po)) ELSE 0)>>
-LexChecks(r) ==
-    LET toks == Lex(r.text, LexOf(r)) IN <<Check(r.toks = toks, "lex.tokens", toks)>>
 
 Checks(r) == CASE r.k = "rt" -> RtChecks(r)
                [] r.k = "doc" -> DocChecks(r)
-               [] r.k = "lex" -> LexChecks(r)
 
 Init == i = 0
 Next == i < N /\ i' = i + 1
